@@ -160,13 +160,16 @@ let do_deallocall (i : inst) : unit =
   | Pool (c, s) -> s := pool_deallocall c !s
   | Heap (c, s, a, _) -> s := unres (hp_deallocall c !s); a := ha_deallocall !a
 
+(* hcfg_ok's lower bound 2*NODE + ALLOC_ALIGN <= size: below it the abstract model does not apply *)
+let heap_cfg_big_enough (c : hcfg) : bool = int_of_z c.h_size >= 80
+
 let do_reset (i : inst) : unit =
   match i with
   | Arena (_, s) -> s := arena_init
   | Stack (_, s) -> s := stack_init
   | Aligned (_, s) -> s := aligned_init
   | Pool (_, s) -> s := pool_init
-  | Heap (_, s, a, ok) -> s := heap_init_state; a := ha_init_state; ok := true
+  | Heap (c, s, a, ok) -> s := heap_init_state; a := ha_init_state; ok := heap_cfg_big_enough c
 
 let base_of = function
   | Arena (c, _) -> c.a_base | Aligned (c, _) -> c.g_inner.a_base | Stack (c, _) -> c.s_base | Pool (c, _) -> c.p_base
@@ -252,7 +255,8 @@ let () =
           | "stack" -> Stack ({ s_base = g "base"; s_size = g "size"; s_align = g "align" }, ref stack_init)
           | "pool" -> Pool ({ p_base = g "base"; p_chunk = g "chunk"; p_count = g "count" }, ref pool_init)
           | "aligned" -> Aligned ({ g_inner = { a_base = g "base"; a_size = g "size"; a_align = g "ialign" }; g_align = g "align" }, ref aligned_init)
-          | "heap" -> Heap ({ h_base = g "base"; h_size = g "size" }, ref heap_init_state, ref ha_init_state, ref true)
+          | "heap" -> let c = { h_base = g "base"; h_size = g "size" } in
+                      Heap (c, ref heap_init_state, ref ha_init_state, ref (heap_cfg_big_enough c))
           | _ -> failwith "kind" in
         Hashtbl.replace insts name i
     | name :: op :: args ->
